@@ -163,6 +163,10 @@ package saml
 //@ invariant[C01,C09] parsed_so_far: iter <= len(certs) && forall(0, iter, func(k int) bool { return certs[k] != nil })
 //@ ensures[C01,C09] all_parsed: err == nil ==> forall(0, len(result), func(k int) bool { return result[k] != nil })
 //@ records ret: ReturnedSigningCerts(sp, result, err)
+//@ -- the trust roots are worked out from the metadata as it is now, by this call: the slice returned is one this call
+//@ -- allocated, not one kept from an earlier call (whose metadata may since have been replaced - key rotation)
+//@ ghost func allocatedHereCerts(c []*x509.Certificate) bool
+//@ ensures[C01,C18] computed_afresh: err == nil ==> allocatedHereCerts(result)
 
 //@ contract (*ServiceProvider).getCertBasedOnFingerprint
 //@ requires el: el != nil
@@ -223,8 +227,10 @@ package saml
 //@      r.Status.StatusCode.Value == StatusSuccess }
 //@ go func isInvalidResponseError(err error) bool { _, ok := err.(*InvalidResponseError); return ok }
 
+//@ go func spKeyOK(k crypto.Signer) bool { r, ok := k.(*rsa.PrivateKey); return !ok || (r != nil && r.N != nil) }
 //@ contract (*ServiceProvider).decryptElement
 //@ requires el: encryptedEl != nil
+//@ requires[cfg] key: spKeyOK(sp.Key)
 //@ -- decrypted plaintext is parsed only after the round-trip validator accepted exactly those bytes
 //@ assert@call[C01,C08] ReadFromBytes #1 (doc *etree.Document, b []byte) plaintext_validated: RoundTripSafe(b)
 //@ ensures[C09] nonnil: err == nil ==> result != nil
@@ -419,6 +425,9 @@ package saml
 //@ requires inv: r.count >= 0 && r.count <= flateUncompressLimit
 //@ ensures[C09] bounded: r.count <= flateUncompressLimit && r.count >= 0
 //@ ensures[C09] progress: n >= 0 && n <= len(p)
+//@ -- the bound is on the total: every byte handed out is added to the running count (a count that is overwritten or
+//@ -- reset bounds only the last chunk)
+//@ ensures[C09] accumulates: r.count == old(r.count) + n
 
 //@ contract (*InvalidResponseError).Error
 //@ ensures[C09] constant: result == "Authentication failed"
@@ -839,15 +848,21 @@ package saml
 //@ go func responsePostURL(d interface{}) string { x, _ := d.(struct { URL string; SAMLResponse string; RelayState string }); return x.URL }
 //@ go func responsePostRelay(d interface{}) string { x, _ := d.(struct { URL string; SAMLResponse string; RelayState string }); return x.RelayState }
 
+//@ -- the bytes handed to the caller are the caller's: they come out of a buffer this very call allocated, not one that a
+//@ -- pool, a package variable or another request still holds and will write to (engine builtin, see DESIGN.md 2.3)
+//@ ghost func allocatedHere(b *bytes.Buffer) bool
 //@ contract (*AuthnRequest).Post
 //@ assert@call[C12,C14] (*html/template.Template).Execute #1 (t *template.Template, out io.Writer, data interface{}) form_data:
 //@    isRequestPostData(data) && postDataURL(data) == r.Destination && postDataRelay(data) == relayState
+//@ assert@call[C12,C14] (*bytes.Buffer).Bytes #each (b *bytes.Buffer) form_is_the_callers_own: allocatedHere(b)
 //@ contract (*LogoutRequest).Post
 //@ assert@call[C12,C14] (*html/template.Template).Execute #1 (t *template.Template, out io.Writer, data interface{}) form_data:
 //@    isRequestPostData(data) && postDataURL(data) == r.Destination && postDataRelay(data) == relayState
+//@ assert@call[C12,C14] (*bytes.Buffer).Bytes #each (b *bytes.Buffer) form_is_the_callers_own: allocatedHere(b)
 //@ contract (*LogoutResponse).Post
 //@ assert@call[C12,C14] (*html/template.Template).Execute #1 (t *template.Template, out io.Writer, data interface{}) form_data:
 //@    isResponsePostData(data) && responsePostURL(data) == r.Destination && responsePostRelay(data) == relayState
+//@ assert@call[C12,C14] (*bytes.Buffer).Bytes #each (b *bytes.Buffer) form_is_the_callers_own: allocatedHere(b)
 
 //@ -- message construction: fresh IDs from at least 128 random bits, configured issuer / destination / ACS URL / policy
 //@ go func idArgOK(a []interface{}) bool { if len(a) != 1 { return false }; b, ok := a[0].([]byte); return ok && len(b)*8 >= 128 }
@@ -1142,46 +1157,64 @@ package saml
 //@ contract (*LogoutRequest).MarshalXML
 //@ assert@call[C15,C02] Encode #1 (enc *xml.Encoder, v interface{}) uses aIssueInstant=aux.IssueInstant RelaxedTime, aNotOnOrAfter=aux.NotOnOrAfter *RelaxedTime alias_fields_from_struct: time.Time(aIssueInstant) == r.IssueInstant && (*time.Time)(aNotOnOrAfter) == r.NotOnOrAfter
 //@ contract (*LogoutRequest).UnmarshalXML
-//@ assert@store[C15,C02] IssueInstant #1 (stored time.Time) uses v=aux.IssueInstant RelaxedTime issueinstant_from_its_alias: stored == time.Time(v)
-//@ assert@store[C15,C02] NotOnOrAfter #1 (stored *time.Time) uses v=aux.NotOnOrAfter *RelaxedTime notonorafter_from_its_alias: stored == (*time.Time)(v)
+//@ -- on success every such field holds what was decoded into its alias field (whichever statements do the copying,
+//@ -- and on every successful return: a return that skips one of the copies fails here)
+//@ assert@return[C15,C02] #each (rerr error) uses aIssueInstant=aux.IssueInstant RelaxedTime, aNotOnOrAfter=aux.NotOnOrAfter *RelaxedTime fields_from_their_aliases: rerr == nil ==> r.IssueInstant == time.Time(aIssueInstant) && r.NotOnOrAfter == (*time.Time)(aNotOnOrAfter)
 //@ contract (*AuthnRequest).MarshalXML
 //@ assert@call[C15,C02] Encode #1 (enc *xml.Encoder, v interface{}) uses aIssueInstant=aux.IssueInstant RelaxedTime alias_fields_from_struct: time.Time(aIssueInstant) == r.IssueInstant
 //@ contract (*AuthnRequest).UnmarshalXML
-//@ assert@store[C15,C02] IssueInstant #1 (stored time.Time) uses v=aux.IssueInstant RelaxedTime issueinstant_from_its_alias: stored == time.Time(v)
+//@ -- on success every such field holds what was decoded into its alias field (whichever statements do the copying,
+//@ -- and on every successful return: a return that skips one of the copies fails here)
+//@ assert@return[C15,C02] #each (rerr error) uses aIssueInstant=aux.IssueInstant RelaxedTime fields_from_their_aliases: rerr == nil ==> r.IssueInstant == time.Time(aIssueInstant)
 //@ contract (*ArtifactResolve).MarshalXML
 //@ assert@call[C15,C02] Encode #1 (enc *xml.Encoder, v interface{}) uses aIssueInstant=aux.IssueInstant RelaxedTime alias_fields_from_struct: time.Time(aIssueInstant) == r.IssueInstant
 //@ contract (*ArtifactResolve).UnmarshalXML
-//@ assert@store[C15,C02] IssueInstant #1 (stored time.Time) uses v=aux.IssueInstant RelaxedTime issueinstant_from_its_alias: stored == time.Time(v)
+//@ -- on success every such field holds what was decoded into its alias field (whichever statements do the copying,
+//@ -- and on every successful return: a return that skips one of the copies fails here)
+//@ assert@return[C15,C02] #each (rerr error) uses aIssueInstant=aux.IssueInstant RelaxedTime fields_from_their_aliases: rerr == nil ==> r.IssueInstant == time.Time(aIssueInstant)
 //@ contract (*ArtifactResponse).MarshalXML
 //@ assert@call[C15,C02] Encode #1 (enc *xml.Encoder, v interface{}) uses aIssueInstant=aux.IssueInstant RelaxedTime alias_fields_from_struct: time.Time(aIssueInstant) == r.IssueInstant
 //@ contract (*ArtifactResponse).UnmarshalXML
-//@ assert@store[C15,C02] IssueInstant #1 (stored time.Time) uses v=aux.IssueInstant RelaxedTime issueinstant_from_its_alias: stored == time.Time(v)
+//@ -- on success every such field holds what was decoded into its alias field (whichever statements do the copying,
+//@ -- and on every successful return: a return that skips one of the copies fails here)
+//@ assert@return[C15,C02] #each (rerr error) uses aIssueInstant=aux.IssueInstant RelaxedTime fields_from_their_aliases: rerr == nil ==> r.IssueInstant == time.Time(aIssueInstant)
 //@ contract (*Response).MarshalXML
 //@ assert@call[C15,C02] Encode #1 (enc *xml.Encoder, v interface{}) uses aIssueInstant=aux.IssueInstant RelaxedTime alias_fields_from_struct: time.Time(aIssueInstant) == r.IssueInstant
 //@ contract (*Response).UnmarshalXML
-//@ assert@store[C15,C02] IssueInstant #1 (stored time.Time) uses v=aux.IssueInstant RelaxedTime issueinstant_from_its_alias: stored == time.Time(v)
+//@ -- on success every such field holds what was decoded into its alias field (whichever statements do the copying,
+//@ -- and on every successful return: a return that skips one of the copies fails here)
+//@ assert@return[C15,C02] #each (rerr error) uses aIssueInstant=aux.IssueInstant RelaxedTime fields_from_their_aliases: rerr == nil ==> r.IssueInstant == time.Time(aIssueInstant)
 //@ contract (*Assertion).UnmarshalXML
-//@ assert@store[C15,C02] IssueInstant #1 (stored time.Time) uses v=aux.IssueInstant RelaxedTime issueinstant_from_its_alias: stored == time.Time(v)
+//@ -- on success every such field holds what was decoded into its alias field (whichever statements do the copying,
+//@ -- and on every successful return: a return that skips one of the copies fails here)
+//@ assert@return[C15,C02] #each (rerr error) uses aIssueInstant=aux.IssueInstant RelaxedTime fields_from_their_aliases: rerr == nil ==> a.IssueInstant == time.Time(aIssueInstant)
 //@ contract (*SubjectConfirmationData).MarshalXML
 //@ assert@call[C15,C02] EncodeElement #1 (enc *xml.Encoder, v interface{}, st xml.StartElement) uses aNotOnOrAfter=aux.NotOnOrAfter RelaxedTime alias_fields_from_struct: time.Time(aNotOnOrAfter) == s.NotOnOrAfter
 //@ contract (*SubjectConfirmationData).UnmarshalXML
-//@ assert@store[C15,C02] NotOnOrAfter #1 (stored time.Time) uses v=aux.NotOnOrAfter RelaxedTime notonorafter_from_its_alias: stored == time.Time(v)
+//@ -- on success every such field holds what was decoded into its alias field (whichever statements do the copying,
+//@ -- and on every successful return: a return that skips one of the copies fails here)
+//@ assert@return[C15,C02] #each (rerr error) uses aNotOnOrAfter=aux.NotOnOrAfter RelaxedTime fields_from_their_aliases: rerr == nil ==> s.NotOnOrAfter == time.Time(aNotOnOrAfter)
 //@ contract (*Conditions).MarshalXML
 //@ assert@call[C15,C02] EncodeElement #1 (enc *xml.Encoder, v interface{}, st xml.StartElement) uses aNotBefore=aux.NotBefore RelaxedTime, aNotOnOrAfter=aux.NotOnOrAfter RelaxedTime alias_fields_from_struct: time.Time(aNotBefore) == c.NotBefore && time.Time(aNotOnOrAfter) == c.NotOnOrAfter
 //@ contract (*Conditions).UnmarshalXML
-//@ assert@store[C15,C02] NotBefore #1 (stored time.Time) uses v=aux.NotBefore RelaxedTime notbefore_from_its_alias: stored == time.Time(v)
-//@ assert@store[C15,C02] NotOnOrAfter #1 (stored time.Time) uses v=aux.NotOnOrAfter RelaxedTime notonorafter_from_its_alias: stored == time.Time(v)
+//@ -- on success every such field holds what was decoded into its alias field (whichever statements do the copying,
+//@ -- and on every successful return: a return that skips one of the copies fails here)
+//@ assert@return[C15,C02] #each (rerr error) uses aNotBefore=aux.NotBefore RelaxedTime, aNotOnOrAfter=aux.NotOnOrAfter RelaxedTime fields_from_their_aliases: rerr == nil ==> c.NotBefore == time.Time(aNotBefore) && c.NotOnOrAfter == time.Time(aNotOnOrAfter)
 //@ contract (*AuthnStatement).MarshalXML
 //@ assert@call[C15,C02] EncodeElement #1 (enc *xml.Encoder, v interface{}, st xml.StartElement) uses aAuthnInstant=aux.AuthnInstant RelaxedTime, aSessionNotOnOrAfter=aux.SessionNotOnOrAfter *RelaxedTime alias_fields_from_struct: time.Time(aAuthnInstant) == a.AuthnInstant && (*time.Time)(aSessionNotOnOrAfter) == a.SessionNotOnOrAfter
 //@ contract (*AuthnStatement).UnmarshalXML
-//@ assert@store[C15,C02] AuthnInstant #1 (stored time.Time) uses v=aux.AuthnInstant RelaxedTime authninstant_from_its_alias: stored == time.Time(v)
-//@ assert@store[C15,C02] SessionNotOnOrAfter #1 (stored *time.Time) uses v=aux.SessionNotOnOrAfter *RelaxedTime sessionnotonorafter_from_its_alias: stored == (*time.Time)(v)
+//@ -- on success every such field holds what was decoded into its alias field (whichever statements do the copying,
+//@ -- and on every successful return: a return that skips one of the copies fails here)
+//@ assert@return[C15,C02] #each (rerr error) uses aAuthnInstant=aux.AuthnInstant RelaxedTime, aSessionNotOnOrAfter=aux.SessionNotOnOrAfter *RelaxedTime fields_from_their_aliases: rerr == nil ==> a.AuthnInstant == time.Time(aAuthnInstant) && a.SessionNotOnOrAfter == (*time.Time)(aSessionNotOnOrAfter)
 //@ contract (*LogoutResponse).MarshalXML
 //@ assert@call[C15,C02] Encode #1 (enc *xml.Encoder, v interface{}) uses aIssueInstant=aux.IssueInstant RelaxedTime alias_fields_from_struct: time.Time(aIssueInstant) == r.IssueInstant
 //@ contract (*LogoutResponse).UnmarshalXML
-//@ assert@store[C15,C02] IssueInstant #1 (stored time.Time) uses v=aux.IssueInstant RelaxedTime issueinstant_from_its_alias: stored == time.Time(v)
+//@ -- on success every such field holds what was decoded into its alias field (whichever statements do the copying,
+//@ -- and on every successful return: a return that skips one of the copies fails here)
+//@ assert@return[C15,C02] #each (rerr error) uses aIssueInstant=aux.IssueInstant RelaxedTime fields_from_their_aliases: rerr == nil ==> r.IssueInstant == time.Time(aIssueInstant)
 //@ contract (EntityDescriptor).MarshalXML
 //@ assert@call[C15,C02] Encode #1 (enc *xml.Encoder, v interface{}) uses aValidUntil=aux.ValidUntil RelaxedTime, aCacheDuration=aux.CacheDuration Duration alias_fields_from_struct: time.Time(aValidUntil) == m.ValidUntil && time.Duration(aCacheDuration) == m.CacheDuration
 //@ contract (*EntityDescriptor).UnmarshalXML
-//@ assert@store[C15,C02] ValidUntil #1 (stored time.Time) uses v=aux.ValidUntil RelaxedTime validuntil_from_its_alias: stored == time.Time(v)
-//@ assert@store[C15,C02] CacheDuration #1 (stored time.Duration) uses v=aux.CacheDuration Duration cacheduration_from_its_alias: stored == time.Duration(v)
+//@ -- on success every such field holds what was decoded into its alias field (whichever statements do the copying,
+//@ -- and on every successful return: a return that skips one of the copies fails here)
+//@ assert@return[C15,C02] #each (rerr error) uses aValidUntil=aux.ValidUntil RelaxedTime, aCacheDuration=aux.CacheDuration Duration fields_from_their_aliases: rerr == nil ==> m.ValidUntil == time.Time(aValidUntil) && m.CacheDuration == time.Duration(aCacheDuration)
